@@ -550,6 +550,17 @@ impl World {
                 if p.is::<Injected>() || p.is::<HarnessError>() {
                     std::panic::resume_unwind(p);
                 }
+                if p.is::<crate::scripts::RefusedAtLimit>() {
+                    // legal only where a refusal is legal: inside a callback, for an object whose destruction follows
+                    let mut m = self.m.borrow_mut();
+                    if m.frames.is_empty() && !m.objs[o as usize].tainted {
+                        drop(m);
+                        self.fail("O-UPG.refused", format!("upgrade returned None at top level although object {} is alive and has strong pointers", o));
+                    } else {
+                        m.refused.push(o);
+                    }
+                    return;
+                }
                 let msg = panic_message(&p);
                 if !msg.contains("Too many references") {
                     self.fail("O-SAT.message", format!("{} on object {} at the limit panicked with an unexpected message: {}", what, o, msg));
